@@ -871,6 +871,10 @@ func shrink(b *built, plan *Plan, sig string) *Plan {
 	items := append([]json.RawMessage(nil), plan.Items...)
 	budget := 160
 	deadline := time.Now().Add(150 * time.Second)
+	if v, err := strconv.Atoi(os.Getenv("VERIF_SHRINK_RUNS")); err == nil && v > 0 {
+		budget = v
+		deadline = time.Now().Add(time.Duration(v) * time.Second)
+	}
 	try := func(cand []json.RawMessage) bool {
 		if budget <= 0 || time.Now().After(deadline) {
 			return false
@@ -980,9 +984,10 @@ func writeReplay(prop string, r *RunResult, v *Violation, plan *Plan, origLen in
 func cmdReplay(args []string) int {
 	fs := flag.NewFlagSet("replay", flag.ExitOnError)
 	showLog := fs.Bool("log", false, "print the event log")
+	doShrink := fs.Int("shrink", 0, "minimise the plan further with a budget of N runs and rewrite the file")
 	fs.Parse(args)
 	if fs.NArg() < 1 {
-		fmt.Fprintln(os.Stderr, "usage: vcheck replay [-log] <file>")
+		fmt.Fprintln(os.Stderr, "usage: vcheck replay [-log] [-shrink N] <file>")
 		return 2
 	}
 	path := fs.Arg(0)
@@ -1026,6 +1031,21 @@ func cmdReplay(args []string) int {
 		}
 		fmt.Println("not reproduced on the current tree")
 		return 0
+	}
+	if *doShrink > 0 {
+		os.Setenv("VERIF_SHRINK_RUNS", strconv.Itoa(*doShrink))
+		before := len(rep.Plan.Items)
+		small := shrink(b, rep.Plan, rep.Signature)
+		if r2 := runPlan(b, small, false); r2 != nil && hasSig(r2, rep.Signature) {
+			var doc map[string]any
+			json.Unmarshal(raw, &doc)
+			doc["plan"] = small
+			doc["digest"] = r2.Digest
+			nb, _ := json.MarshalIndent(doc, "", " ")
+			os.WriteFile(path, nb, 0o644)
+			rep.Plan, rep.Digest = small, r2.Digest
+			fmt.Printf("  shrunk: plan items %d -> %d (file rewritten)\n", before, len(small.Items))
+		}
 	}
 	r := runPlan(b, rep.Plan, *showLog)
 	if r == nil {
